@@ -57,7 +57,13 @@ _GET_TAIL = [
     'oblige("instance-handed-over-at-most-once", ghost_get("yield_count", 0) - ghost_get("yields_at_head", 0) '
     '<= (1 if _is_store else 0))',
 ]
+# the operation goes on exactly until the final C-GET response: a pending one (0xFF00, PS3.4 C.4.3.1.4) and the
+# C-STORE requests are not the end, whatever their other fields say; anything else that is a C-GET response is
+_FINAL_GET_RSP = 'msg.command_field == 0x8010 and msg.status != 0xFF00'
+_GET_TAIL.append('oblige("goes-on-only-before-the-final-get-response", not (%s))' % _FINAL_GET_RSP)
+ls.on_break = ['oblige("ends-only-on-the-final-get-response", %s)' % _FINAL_GET_RSP]
 ls.for_prop('C19', tail=_GET_TAIL)
+ls.for_prop('C17', tail=_GET_TAIL)
 
 
 # ---- C16 clauses of the C-FIND provider loop: one response per match, carrying that match
